@@ -145,6 +145,13 @@ func HostileLiterals() []TextCase {
 			out = append(out, TextCase{ID: g.ID, Family: "LIT", Text: ag.Render(g, ag.RenderOpts{Package: "g"}), Valid: true})
 		}
 	}
+	// ranges that span the surrogate block inside a choice the -switch optimiser rewrites (no input
+	// rune is ever a surrogate, but the case labels are written from the range)
+	for i, r := range [][2]rune{{0xD000, 0xE000}, {0xD7FF, 0xD801}, {0xDFFE, 0xE001}} {
+		g := ag.G(fmt.Sprintf("LIT/surrogates/%d", i), ag.Rule{Name: "S", Body: ag.A(ag.S(ag.C(ag.R(r[0], r[1])), ag.L("x")), ag.S(ag.C(ag.R(0x1000, 0x4000)), ag.L("y")), ag.L("a"))})
+		g.Number()
+		out = append(out, TextCase{ID: g.ID, Family: "LIT", Text: ag.Render(g, ag.RenderOpts{Package: "g"}), Valid: true})
+	}
 	// ranges with awkward bounds
 	for i, r := range [][2]rune{{'*', '/'}, {0, 0x10FFFF}, {'\'', '"'}, {'!', '~'}, {0x7f, 0xa0}, {'\\', ']'}} {
 		if r[0] > r[1] {
@@ -175,6 +182,7 @@ func CodeBlocks() []TextCase {
 		"percent":         ` _ = fmt.Sprintf("%d%%", 1) `,
 		"unicode":         ` _ = "é汉😀" `,
 		"empty":           " ",
+		"number-literals": " _ = 0X1F + 0B11 + 0O17; _ = 1E3; _ = 0XABCp-2 ",
 	}
 	preds := map[string]string{
 		"block-comment": " /* c */ true ",
